@@ -243,6 +243,32 @@ def npWhere (c : List Bool) : List Nat := (List.range c.length).filter fun i => 
 /-- `flags[idx] = x` with an integer index array (all indices in range). -/
 def setIdx (fl : List Flag) (idx : List Nat) (x : Flag) : List Flag := idx.foldl (fun f i => f.set i x) fl
 
+/-! ### 2-D windows (`flat_line_test`) -/
+
+/-- `rolling_window(a, w)` of `flat_line_test`:
+    `np.ma.masked_invalid(np.lib.stride_tricks.as_strided(a, (n - w + 1, w + 1), …)[:-1, :])` — rows r = 0 … n-w-1, row r holding the
+    w+1 RAW data values a[r], …, a[r+w] (the strided view is taken of the data buffer: the mask of `a` is dropped), NaN masked
+    again.  No row when n ≤ w (the explicit `len(a) < window` branch returns a (0, w+1) array as well). -/
+def rollingWindow (a : MArr) (w : Nat) : List MArr :=
+  (List.range (a.length - w)).map fun r => maskedInvalid (((a.drop r).take (w + 1)).map fun c => ⟨c.d, false⟩)
+
+/-- the unmasked numbers of a row -/
+def rowVals (row : MArr) : List Rat :=
+  row.filterMap fun c => if c.m then none else match c.d with | .num q => some q | .nan => none
+
+def optCell (o : Option Rat) : Cell := match o with | some q => ⟨.num q, false⟩ | none => ⟨.nan, true⟩
+
+/-- `np.min(window, 1)` / `np.max(window, 1)` of a 2-D masked array: per row over the unmasked values; a row without any is
+    masked in the result (the datum under that mask is unspecified — modelled as NaN; it is never looked at: `np.ma.filled(…, False)`). -/
+def rowMin (w : List MArr) : MArr := w.map fun row => optCell (lmin (rowVals row))
+def rowMax (w : List MArr) : MArr := w.map fun row => optCell (lmax (rowVals row))
+
+/-- `np.ma.filled(c, fill_value=False)` of a masked boolean array -/
+def filledFalse (c : BArr) : List Bool := c.map fun x => !x.m && x.d
+
+/-- `np.insert(c, 0, np.full((k,), False))` -/
+def insertFalse (k : Nat) (c : List Bool) : List Bool := List.replicate k false ++ c
+
 /-! ## array-level transcriptions -/
 
 /-- `gross_range_test` after the argument checks (spans sorted; `u ⊆ f` verified). -/
